@@ -11,7 +11,9 @@
    IcyDraw::load_buffer, LAYER_n chunk (header + cells)        icy_layer      (cells: decode_cell, cells_loop true)
    IcyDraw::load_buffer, LAYER_n~k chunk, Role::Normal         icy_continue   (cells_loop false)
    icy_draw::read_utf8_encoded_string                          read_string
-   fonts::glyphs_from_u8_data                                  glyphs
+   fonts::glyphs_from_u8_data                                  glyphs         (glyphs_v0: the loop of the snapshot commit)
+   BitFont::{from_bytes, load_psf1, load_psf2, load_plain_font,
+             create_8, from_basic}: length + glyph map         font_from_bytes, load_psf1, load_psf2, load_plain, font_create
    BitFont::{calculate_checksum, convert_to_u8_data,
              to_psf2_bytes}: the chars they look up            lookup_keys
    Parser::parse_hex_macro_sequence                            hexmacro
@@ -29,7 +31,7 @@ Inductive outcome (A : Type) : Type :=
 | Done (a : A)      (* the function returned normally (Ok / Some) with this observable state *)
 | Rejected          (* Err(..) / None *)
 | Panic             (* index or slice out of range, add overflow *)
-| Diverge.          (* the Rust loop does not terminate (font height 0); also "out of fuel", proved unreachable *)
+| Diverge.          (* the Rust loop does not terminate (snapshot code: font height 0); also "out of fuel", proved unreachable *)
 Arguments Done {A} _. Arguments Rejected {A}. Arguments Panic {A}. Arguments Diverge {A}.
 
 Definition omap {A B} (f : A -> B) (o : outcome A) : outcome B :=
@@ -246,8 +248,10 @@ Definition icy_continue (conv : N -> option N) (w h lines : Z) (bytes : list N) 
 
 (* ------------------------------------------------------------------ fonts *)
 
-(* glyphs_from_u8_data: (key, glyph) insertions in order; a glyph index that is not a char inserts nothing *)
-Fixpoint glyphs_loop (conv : N -> option N) (fuel : nat) (h : nat) (ch : N) (data : list N)
+(* glyphs_from_u8_data AS IT WAS at the snapshot commit (`while !data.is_empty() { .. data[..font_height] ..
+   data = &data[font_height..]; ch += 1 }`): a height of 0 with data left never ends, an incomplete last glyph
+   panics, the index runs as far as the data goes.  Kept for the *_before_fix_refuted / fix_is_local theorems *)
+Fixpoint glyphs_loop_v0 (conv : N -> option N) (fuel : nat) (h : nat) (ch : N) (data : list N)
   : outcome (list (N * list N)) :=
   match data with
   | [] => Done []
@@ -258,21 +262,109 @@ Fixpoint glyphs_loop (conv : N -> option N) (fuel : nat) (h : nat) (ch : N) (dat
       match take h data with
       | None => Panic
       | Some (g, rest) =>
-        let tl := glyphs_loop conv f h (ch + 1) rest in
+        let tl := glyphs_loop_v0 conv f h (ch + 1) rest in
         match conv ch with Some c => omap (cons (c, g)) tl | None => tl end
       end
     end
   end.
 
-Definition glyphs (conv : N -> option N) (h : nat) (data : list N) : outcome (list (N * list N)) :=
+Definition glyphs_v0 (conv : N -> option N) (h : nat) (data : list N) : outcome (list (N * list N)) :=
   match h, data with
   | O, _ :: _ => Diverge                          (* `data = &data[0..]`: the loop never ends *)
-  | _, _ => glyphs_loop conv (length data) h 0 data
+  | _, _ => glyphs_loop_v0 conv (length data) h 0 data
   end.
+
+(* glyphs_from_u8_data of the merged tree:
+     while font_height > 0 && data.len() >= font_height && ch < MAX_GLYPHS {
+         glyph = data[..font_height]; if let Some(ch) = conv(ch as u32) { insert(ch, glyph) }
+         data = &data[font_height..]; ch += 1 }
+   (key, glyph) insertions in order; a glyph index that is not a char inserts nothing.  The slice is still a
+   checked access here ([take] -> Panic); that it cannot fail behind the loop test is proved, not assumed.
+   Fuel: every iteration consumes font_height >= 1 bytes; the entry point gives length data (proved enough). *)
+Fixpoint glyphs_loop (conv : N -> option N) (fuel : nat) (h : nat) (ch : N) (data : list N)
+  : outcome (list (N * list N)) :=
+  if Nat.eqb h 0 || shorter data h || (MAX_GLYPHS <=? ch) then Done [] else
+  match fuel with
+  | O => Diverge
+  | S f =>
+    match take h data with
+    | None => Panic
+    | Some (g, rest) =>
+      let tl := glyphs_loop conv f h (ch + 1) rest in
+      match conv ch with Some c => omap (cons (c, g)) tl | None => tl end
+    end
+  end.
+
+Definition glyphs (conv : N -> option N) (h : nat) (data : list N) : outcome (list (N * list N)) :=
+  glyphs_loop conv (length data) h 0 data.
+
+(* the same for a height that arrives as a u32 (PSF2 header): a height above the data length ends the loop at
+   once, so the unary number is only built when it is at most length data (glyphs_n_eq: equal to [glyphs]) *)
+Definition glyphs_n (conv : N -> option N) (h : N) (data : list N) : outcome (list (N * list N)) :=
+  if N.of_nat (length data) <? h then Done [] else glyphs conv (N.to_nat h) data.
 
 (* `for ch in 0..length { .. conv(ch as u32) .. get_glyph(c) }`: the chars that are looked up *)
 Definition lookup_keys (conv : N -> option N) (length : N) : list N :=
   flat_map (fun i => match conv i with Some c => [c] | None => [] end) (nrange length).
+
+(* a loaded BitFont: `length` (the bound of the three lookup loops) and the insertions into `glyphs` *)
+Record font_result := { ft_length : N; ft_glyphs : list (N * list N) }.
+Definition mk_font (length : N) (g : outcome (list (N * list N))) : outcome font_result :=
+  omap (fun g => {| ft_length := length; ft_glyphs := g |}) g.
+
+Definition le32_at (l : list N) (i : nat) : N :=
+  le32 (byte_at l i) (byte_at l (i + 1)) (byte_at l (i + 2)) (byte_at l (i + 3)).
+
+(* &l[n..] *)
+Definition drop (n : N) (l : list N) : option (list N) :=
+  if N.of_nat (length l) <? n then None else Some (skipn (N.to_nat n) l).
+
+(* usize::checked_mul / checked_add on a 64-bit target *)
+Definition usize_checked (x : N) : option N := if x <? 18446744073709551616 then Some x else None.
+
+(* BitFont::create_8 / from_basic (height: u8): length 256 whatever the data holds *)
+Definition font_create (conv : N -> option N) (h : N) (data : list N) : outcome font_result :=
+  mk_font 256 (glyphs conv (N.to_nat h) data).
+
+(* load_psf1: data[2], data[3], &data[4..] (from_bytes has checked data.len() >= 4 before) *)
+Definition load_psf1 (conv : N -> option N) (data : list N) : outcome font_result :=
+  match data with
+  | _ :: _ :: mode :: charsize :: rest =>
+    mk_font (if N.land mode PSF1_MODE512 =? PSF1_MODE512 then 512 else 256) (glyphs conv (N.to_nat charsize) rest)
+  | _ => Panic
+  end.
+
+(* load_plain_font *)
+Definition load_plain (conv : N -> option N) (data : list N) : outcome font_result :=
+  let n := N.of_nat (length data) in
+  if negb (n mod 256 =? 0) then Rejected else mk_font 256 (glyphs conv (N.to_nat (n / 256)) data).
+
+(* load_psf2: the header fields are sliced after the `data.len() < 32` test ([byte_at] below is in range);
+   length * charsize + headersize with checked arithmetic must be the file length and length <= MAX_GLYPHS;
+   the glyph rows are `height` bytes each (charsize only enters the length test) *)
+Definition load_psf2 (conv : N -> option N) (data : list N) : outcome font_result :=
+  let n := N.of_nat (length data) in
+  if n <? 32 then Rejected else
+  if PSF2_MAXVERSION <? le32_at data 4 then Rejected else
+  let headersize := le32_at data 8 in
+  let length := le32_at data 16 in
+  let charsize := le32_at data 20 in
+  let expected := match usize_checked (length * charsize) with
+                  | Some size => usize_checked (size + headersize)
+                  | None => None
+                  end in
+  if negb (match expected with Some e => e =? n | None => false end) || (MAX_GLYPHS <? length) then Rejected else
+  match drop headersize data with
+  | None => Panic
+  | Some body => mk_font length (glyphs_n conv (le32_at data 24) body)
+  end.
+
+(* BitFont::from_bytes *)
+Definition font_from_bytes (conv : N -> option N) (data : list N) : outcome font_result :=
+  if shorter data 4 then Rejected
+  else if le16 (byte_at data 0) (byte_at data 1) =? PSF1_MAGIC then load_psf1 conv data
+  else if le32_at data 0 =? PSF2_MAGIC then load_psf2 conv data
+  else load_plain conv data.
 
 (* ------------------------------------------------------------------ DCS hex macros *)
 
